@@ -34,7 +34,10 @@ impl Vm {
     // Make sure we have enough space for the error message
     // As this isn't accounted for during compilation
     let mut fiber = self.fiber;
-    fiber.ensure_stack(self, 1);
+    fiber.ensure_stack(self, 2);
+
+    // the class takes the callee slot, calling it replaces this slot with the new instance
+    fiber.push(val!(error));
     fiber.push(error_message);
 
     let mode = ExecutionMode::CallingNativeCode(self.fiber.frames().len());
